@@ -692,6 +692,7 @@ class Executor:
             built, dumps = self.build_aux(vals, st)
             if dumps:
                 rec['built'] = dumps
+            fp_before = [self.fingerprint(x) for x in ins]
             if self.risky(ins):
                 sig = self.probe_in_child(vals, st, built)
                 if sig is not None:
@@ -724,6 +725,11 @@ class Executor:
                 continue
             vals.append(res if isinstance(res, npc.Array) else None)
             rec['ins'] = [bool(x._qdata_sorted) if isinstance(x, npc.Array) else None for x in ins]
+            mutated = [k for k, (x, f) in enumerate(zip(ins, fp_before)) if self.fingerprint(x) != f]
+            if mutated:
+                rec['mutated_inputs'] = mutated
+                rec['oracle'].append([f'c01.{self.opname(st)}.mutates-operand',
+                                      f'legs / total charge / dense form of input(s) {mutated} changed during the call'])
             try:
                 self.record(rec, st, ins, dens, res, extra)
             except Exception as e:
@@ -732,6 +738,16 @@ class Executor:
             out['steps'].append(rec)
         out['entered'] = sorted(self.entered)
         return out
+
+    def fingerprint(self, x):
+        """observable content of a tensor (block order and cached flags excluded)"""
+        if not isinstance(x, self.npc.Array):
+            return None
+        try:
+            legs = tuple((l.charges.tobytes(), l.slices.tobytes(), int(l.qconj)) for l in x.legs)
+            return (legs, x.qtotal.tobytes(), tuple(x._labels), x.to_ndarray().tobytes())
+        except Exception:
+            return None
 
     def risky(self, ins):
         """inputs with a stored block of size 0: known to be able to kill the interpreter (compiled tensordot)"""
